@@ -60,9 +60,10 @@ MODELLED = ('ann/content.py Measurements.__init__/get_values, AnnotationGroup.__
             '(number < 1, algorithm type enum, algorithm identification required unless MANUAL -> TypeError, dropped when '
             'MANUAL), MicroscopyBulkSimpleAnnotations.__init__ guards (coordinate type, frame of reference, number of source '
             'images, transfer syntax), lookup returning the group object, accessor histories and the get_measurements value '
-            'matrix (np.vstack(..).T) on that object.  Not modelled (exercised only): SOPClass header attributes, pydicom I/O.')
+            'matrix (np.vstack(..).T) on that object; from_dataset guards (Dataset type, SOP class, little endian file meta).  '
+            'Not modelled (exercised only): SOPClass header attributes, pydicom I/O.')
 STRATA = ['graphic', 'graphic_bigint', 'graphic_err', 'decode_raw', 'meas', 'meas_raw', 'group_meas', 'group_meas_err',
-          'lookup', 'lookup_err', 'zero_mixed', 'graphic_layout', 'access_order', 'object', 'object_err']
+          'lookup', 'lookup_err', 'zero_mixed', 'graphic_layout', 'access_order', 'object', 'object_err', 'parse_guard']
 RULE = ('graphic: 1-4 groups per object, all five graphic types, point counts at and around the limits, 2-D / 3-D with '
         'constant / varying / almost-constant z, dtypes float32 float64 int8..int64 uint8..uint32 and mixed, values from '
         'boundary pools (signed zeros, denormals, max finite, 2^24, dyadic); graphic_err: every guard violated once (count '
@@ -78,6 +79,8 @@ RULE = ('graphic: 1-4 groups per object, all five graphic types, point counts at
         'colliding labels / codes / uids, MANUAL groups given an algorithm identification), 1 or 2 source images, every group '
         'looked up by number and uid + beyond + filters, 2-4 accessor calls + name filters on the object found; object_err: '
         'each constructor guard violated once, alone and together with a missing algorithm identification (TypeError wins); '
+        'parse_guard: from_dataset of the instance / a group / a measurement item given a non-Dataset, another SOP class, a big '
+        'endian or missing file meta, copy and no copy, then the usual lookups and reads; '
         'non-trivial = more than one annotation or a rejected input; distinct by case hash')
 NOT_EXECUTED = ['float16 / float128 coordinate arrays (outside the property quantifier)',
                 '64-bit integer coordinates with |v| > 2^53 (no float storage holds them; the code rounds silently)']
@@ -609,6 +612,17 @@ def gen_object(rng, tier, mode=None):
             'lookups': ls}
 
 
+PARSE_VARIANTS = ['ok', 'ok_nocopy', 'no_file_meta', 'not_dataset', 'group_not_dataset', 'meas_not_dataset', 'sop_class',
+                  'big_endian', 'sop_class+big_endian']
+
+
+def gen_parse_guard(rng, tier, variant):
+    c = gen_object(rng, tier)
+    c['lookups'] = c['lookups'][1:3] + c['lookups'][-1:]
+    c.update({'kind': 'parse_guard', 'variant': variant, 'arg': rng.choice(['dict', 'list', 'str', 'none', 'int'])})
+    return c
+
+
 def gen_cases(rng, tier):
     import itertools
     n = {'quick': 1, 'thorough': 16, 'search': 8}[tier]
@@ -675,6 +689,9 @@ def gen_cases(rng, tier):
     for mode in OBJ_ERR_MODES:
         for _ in range(2 * n):
             cases.append(gen_object(rng, tier, mode))
+    for variant in PARSE_VARIANTS:
+        for _ in range(2 * n):
+            cases.append(gen_parse_guard(rng, tier, variant))
     rng.shuffle(cases)          # spread the large cases over the coqc shards
     return cases
 
@@ -1260,6 +1277,45 @@ def _run_object(c):
     return out
 
 
+def _run_parse_guard(c):
+    import copy as _copy
+    from pydicom.dataset import Dataset
+    from highdicom.ann import MicroscopyBulkSimpleAnnotations, AnnotationGroup, Measurements
+    v = c['variant']
+    junk = {'dict': {}, 'list': [], 'str': 'ANN', 'none': None, 'int': 3}[c['arg']]
+    if v == 'group_not_dataset':
+        return catch(lambda: AnnotationGroup.from_dataset(junk))
+    if v == 'meas_not_dataset':
+        return catch(lambda: Measurements.from_dataset(junk))
+    if v == 'not_dataset':
+        return catch(lambda: MicroscopyBulkSimpleAnnotations.from_dataset(junk))
+    ann = _build_object(c)
+    if v == 'no_file_meta':
+        ds = Dataset()
+        for el in ann:
+            ds.add(_copy.deepcopy(el))
+        assert not hasattr(ds, 'file_meta')
+    else:
+        ds = _copy.deepcopy(ann)
+    if 'sop_class' in v:
+        ds.SOPClassUID = '1.2.840.10008.5.1.4.1.1.66.4'
+    if 'big_endian' in v:
+        ds.file_meta.TransferSyntaxUID = '1.2.840.10008.1.2.2'
+    obj = catch(lambda: MicroscopyBulkSimpleAnnotations.from_dataset(ds, copy=(v != 'ok_nocopy')))
+    if isinstance(obj, Err):
+        return obj
+    ct = '2D' if c['d'] == 2 else '3D'
+    res = []
+    for kind, arg, ops, names in c['lookups']:
+        if kind == 'query':
+            res.append(catch(lambda: [_observe_object(g, ct, ops, names, False) for g in obj.get_annotation_groups(**_query_kw(arg))]))
+            continue
+        g = catch(lambda: obj.get_annotation_group(number=arg) if kind == 'number' else
+                  obj.get_annotation_group(uid=UID_ROOT + '7.' + str(arg)))
+        res.append(g if isinstance(g, Err) else _observe_object(g, ct, ops, names, False))
+    return res
+
+
 def run_impl(c):
     import warnings
     import logging
@@ -1282,6 +1338,8 @@ def run_impl(c):
         return _run_lookup(c)
     if k in ('object', 'object_err'):
         return _run_object(c)
+    if k == 'parse_guard':
+        return _run_parse_guard(c)
     raise ValueError(k)
 
 
@@ -1380,8 +1438,13 @@ def _object_term(c):
         ls.append(f"({look}, [{o}], [{'; '.join(optz(q) for q in names)}])")
     hdr = (f"(mkH {_b(h['ctype'] in ('2D', '3D'))} {_b(h['ctype'] == '3D')} {h['nsrc']} {h['nfor'] if h['nsrc'] else 0} "
            f"{_b(h['ts'] in ('explicit', 'implicit'))})")
-    return (f"(let h := {hdr} in let ss := [{'; '.join(specs)}] in let ls := [{'; '.join(ls)}] in "
-            f"match run_object h ss false ls with VErr e => VErr e "
+    lets = f"let h := {hdr} in let ss := [{'; '.join(specs)}] in let ls := [{'; '.join(ls)}] in "
+    if c['kind'] == 'parse_guard':
+        v = c['variant']
+        pin = ('PNotDataset' if 'not_dataset' in v else
+               f"(PDataset {_b('sop_class' not in v)} {'None' if v == 'no_file_meta' else '(Some ' + _b('big_endian' not in v) + ')'})")
+        return f"({lets}run_parse_guard {pin} h ss ls)"
+    return (f"({lets}match run_object h ss false ls with VErr e => VErr e "
             f"| r0 => let r1 := run_object h ss true ls in VL [r0; r1; r1] end)")
 
 
@@ -1389,7 +1452,7 @@ def coq_term(c):
     k = c['kind']
     if k == 'access_order':
         return _history_term(c)
-    if k in ('object', 'object_err'):
+    if k in ('object', 'object_err', 'parse_guard'):
         return _object_term(c)
     if k in ('graphic', 'graphic_bigint', 'graphic_layout'):
         n = len(c['groups'])
@@ -1621,6 +1684,15 @@ def oracle(c, out):
         return _oracle_access_order(c, out)
     if k == 'object':
         return _oracle_object(c, out)
+    if k == 'parse_guard':
+        v = c['variant']
+        if 'not_dataset' in v:
+            return None if out == Err('TypeError') else f'from_dataset({c["arg"]}) ({v}): expected TypeError, got {str(out)[:200]}'
+        if v in ('ok', 'ok_nocopy', 'no_file_meta'):
+            if isinstance(out, Err):
+                return f'written instance refused by from_dataset ({v}): {out}'
+            return _oracle_object(c, [out])
+        return None if out == Err('ValueError') else f'from_dataset ({v}): expected ValueError, got {str(out)[:200]}'
     if k == 'object_err':
         want = Err('TypeError') if 'alg_missing' in c['mode'] and not c['mode'].startswith('number_zero') else Err('ValueError')
         return None if out == want else f'malformed instance ({c["mode"]}): expected {want}, got {str(out)[:200]}'
@@ -1769,7 +1841,7 @@ def shrink(c):
         for i in range(len(c['ms'])):
             if len(c['ms']) > 1:
                 yield dict(c, ms=c['ms'][:i] + c['ms'][i + 1:])
-    elif k in ('object', 'object_err'):
+    elif k in ('object', 'object_err', 'parse_guard'):
         ls = c['lookups']
         if len(ls) > 1:
             for i in range(len(ls)):
